@@ -185,6 +185,7 @@ func init() {
 			}
 			return r
 		}
+		sharedInputCases(lists, toLabels, emit)
 		for _, in := range lists {
 			for _, out := range lists {
 				for _, fails := range [][]bool{{false, false, false}, {false, true, false}, {true, false, false}} {
@@ -256,6 +257,92 @@ func init() {
 					}})
 				}
 			}
+		}
+	}
+}
+
+// sharedInputCases: a function built over the *input set of another, ordinary function*
+// (BuildFunc(orig.Input(), ...)): a wrapper. The wrapper stores every call's arguments in
+// that set; the wrapped function must keep receiving exactly what its own calls supply.
+func sharedInputCases(lists [][]vsItem, toLabels func([]vsItem) []Label, emit func(apiCase)) {
+	for _, in := range lists {
+		if len(in) == 0 {
+			continue
+		}
+		in := in
+		for _, asConv := range []bool{false, true} {
+			asConv := asConv
+			desc := fmt.Sprintf("BuildFunc over orig.Input() in=[%s]; history wrapper, orig, wrapper, orig (orig as converter=%v)", labelsString(toLabels(in)), asConv)
+			emit(apiCase{Desc: desc, Run: func() (fs []Finding) {
+				add := func(clause, m string, a ...interface{}) {
+					fs = append(fs, Finding{"C15", clause, desc + ": " + fmt.Sprintf(m, a...)})
+				}
+				w := NewWorld()
+				ospec := FuncSpec{ID: "orig", In: toLabels(in), InForm: FormStruct, Out: []Label{{"", 4, ""}}, OutForm: FormPositional}
+				orig, err := w.Build(ospec)
+				if err != nil {
+					add("construct", "orig: %v", err)
+					return
+				}
+				outSet, _ := am.NewValueSet([]am.Value{{Type: typeOf(3)}})
+				var seen []string
+				wrapper, err := am.BuildFunc(orig.Input(), outSet, func(i, o *am.ValueSet) error {
+					var ts []string
+					for _, v := range i.Values() {
+						ts = append(ts, provOf(v.Value))
+					}
+					seen = append(seen, strings.Join(ts, ","))
+					o.Typed(typeOf(3)).Value = mkVal(3, "w("+strings.Join(ts, ",")+")")
+					return nil
+				})
+				if err != nil {
+					add("construct", "BuildFunc(orig.Input()): %v", err)
+					return
+				}
+				consumer, _ := w.Build(FuncSpec{ID: "consumer", In: []Label{{"", 4, ""}}, InForm: FormPositional, OutForm: FormPositional})
+				args := func(call int) (r []am.Arg, terms []string) {
+					for i, l := range toLabels(in) {
+						t := fmt.Sprintf("h%d_%d", call, i)
+						terms = append(terms, t)
+						r = append(r, inputArg(Input{L: l, V: t}))
+					}
+					return
+				}
+				for call := 0; call < 4; call++ {
+					a, terms := args(call)
+					want := strings.Join(terms, ",")
+					if call%2 == 0 {
+						r := wrapper.Call(a...)
+						if r.Err() != nil || len(seen) == 0 || seen[len(seen)-1] != want {
+							add("wrapper-view", "call %d: the wrapper's callback saw %v err=%v, want %s", call, seen, r.Err(), want)
+							return
+						}
+						continue
+					}
+					mark := len(w.Log.Inv)
+					var r am.Result
+					if asConv {
+						r = consumer.Call(append(a, am.ConverterFunc(orig))...)
+					} else {
+						r = orig.Call(a...)
+					}
+					got := ""
+					for _, inv := range w.Log.Inv[mark:] {
+						if inv.Func == "orig" {
+							var ts []string
+							for _, x := range inv.Args {
+								ts = append(ts, x.Prov)
+							}
+							got = strings.Join(ts, ",")
+						}
+					}
+					if r.Err() != nil || got != want {
+						add("wrapped-disturbed", "call %d: the wrapped function received [%s] err=%v, its own call supplied [%s]", call, got, r.Err(), want)
+						return
+					}
+				}
+				return
+			}})
 		}
 	}
 }
